@@ -402,3 +402,30 @@ _def(pset, [pm, k, pv], z3.If(PMp.is_('pnil', pm), PMp.mk('pcons', k, pv, PMp.mk
                               z3.If(PMp.get('pcons', 'pkey', pm) == k, PMp.mk('pcons', k, pv, PMp.get('pcons', 'ptl', pm)),
                                     PMp.mk('pcons', PMp.get('pcons', 'pkey', pm), PMp.get('pcons', 'pval', pm),
                                            pset(PMp.get('pcons', 'ptl', pm), k, pv)))))
+
+# ---- plain list functions (Rust Vec / slice operations) ---------------------------------------------------------------------
+ml_ = z3.Const('ml_', ML)
+tl_ = z3.Const('tl_', TL)
+tt_ = z3.Const('tt_', Term)
+i_ = z3.Int('i_')
+
+
+def _listfns(prefix, sort, A, nil, cons, hd, tl, elem_sort, lv, ev, default):
+    length = _rec(prefix + '_len', sort, I)
+    _def(length, [lv], z3.If(A.is_(nil, lv), z3.IntVal(0), 1 + length(A.get(cons, tl, lv))))
+    nth = _rec(prefix + '_nth', sort, I, elem_sort)
+    _def(nth, [lv, i_], z3.If(A.is_(nil, lv), default, z3.If(i_ == 0, A.get(cons, hd, lv), nth(A.get(cons, tl, lv), i_ - 1))))
+    snoc = _rec(prefix + '_snoc', sort, elem_sort, sort)
+    _def(snoc, [lv, ev], z3.If(A.is_(nil, lv), A.mk(cons, ev, A.mk(nil)),
+                               A.mk(cons, A.get(cons, hd, lv), snoc(A.get(cons, tl, lv), ev))))
+    return length, nth, snoc
+
+
+il_len, il_nth, il_snoc = _listfns('il', IdL, IDL, 'inil', 'icons', 'ihd', 'itl', I, _l, _x, z3.IntVal(-1))
+ml_len, ml_nth, ml_snoc = _listfns('ml', ML, MLs, 'lnil', 'lcons', 'lhd', 'ltl', MPat, ml_, q, M.mk('EVar', z3.IntVal(-1)))
+tl_len, tl_nth, tl_snoc = _listfns('tl', TL, TLs, 'tnil', 'tcons', 'thd', 'ttl', Term, tl_, tt_,
+                                   TRM.mk('Pat', M.mk('EVar', z3.IntVal(-1))))
+# position of the first occurrence of x in l (only meaningful when mem(x, l))
+il_index = _rec('il_index', IdL, I, I)
+_def(il_index, [_l, _x], z3.If(IDL.is_('inil', _l), z3.IntVal(0),
+                               z3.If(IDL.get('icons', 'ihd', _l) == _x, z3.IntVal(0), 1 + il_index(IDL.get('icons', 'itl', _l), _x))))
